@@ -109,6 +109,8 @@ class C02(Check):
             return      # second deviation: toy gene, <=2 copies, gap 0.1 (the thorough tier's deepest slice)
         if wk != ("toy",) and len(struct) > 2:
             return      # three-copy plantings of the generated worlds stay noise-free
+        if self.tier == "quick" and wk != ("toy",) and (sum(len(a) for a in planted) + len(planted[0])) % 2 != self.seed % 2:
+            return      # quick: deviations on a seed-rotated half of the generated world's plantings
         gene = worlds.gene_of(wk, build)
         base = self._base_table(gene, struct, planted)
         cells = []
